@@ -238,7 +238,11 @@ func (c *Context) GetRatecounterVariable(name string) (types.Type, error) {
 	// nameComponents[1] should be the variable name
 	// nameComponents[2] should be either "bucket" or "rate"
 	// nameComponents[3] should be the time (10s, 60s, etc)
-	if v, ok := c.Variables[nameComponents[0]].Items["%any%"].Items[nameComponents[2]].Items[nameComponents[3]]; ok {
+	kind, ok := c.Variables[nameComponents[0]].Items["%any%"].Items[nameComponents[2]]
+	if !ok {
+		return types.NullType, fmt.Errorf(`undefined variable "%s"`, name)
+	}
+	if v, ok := kind.Items[nameComponents[3]]; ok && v.Value != nil {
 		return v.Value.Get, nil
 	}
 
